@@ -114,7 +114,9 @@ static Recorder* gRec = nullptr;
 
 // ------------------------------------------------------------------ programs
 struct Shape { double vol, area; int genus; };
-struct RunOut { std::vector<Manifold> results; std::vector<Manifold> exprs; std::vector<char> pureStatus; std::vector<Manifold> inter; };
+struct RunOut { std::vector<Manifold> results; std::vector<Manifold> exprs; std::vector<char> pureStatus; std::vector<Manifold> inter;
+  std::vector<Manifold> pre;  // handles whose expression was COMPLETELY evaluated (without ctx) before the observed step: their value is fixed
+};
 struct Program {
   std::string name, kind;
   std::vector<Manifold> ops;  // evaluated operands
@@ -231,6 +233,31 @@ static std::vector<Program> makePrograms(uint64_t seed) {
     p.run = [](const Program& q, ExecutionContext& c, Recorder& r) {
       RunOut o; Manifold s = (q.ops[0] - q.ops[1]) + q.ops[2]; o.inter.push_back(s);
       stepStatus(o, c, r, Manifold::BatchBoolean({s, s.Translate(vec3(0.8, 0.0, 0.0)), s.Rotate(0, 90, 0).Translate(vec3(0.0, 0.9, 0.0))}, OpType::Add)); return o; };
+    add(p);
+  }
+  {  // a shared sub-expression ALREADY EVALUATED through another expression (its op node carries a valid cache_ and is still
+     // referenced by the lazy handle s) is an operand of the observed evaluation: a cancel must not touch its value
+    Program p; p.name = "dag_preeval_shared"; p.kind = "dag";
+    p.ops = {cube(vec3(1.0), vec3(0.0)), sph(0.6, seg, vec3(0.5, 0.1 + jit(), 0.0)), cube(vec3(0.8), vec3(-0.5, 0.2, 0.1)), sph(0.7, seg, vec3(0.1, 0.3 + jit(), 0.2))};
+    p.run = [](const Program& q, ExecutionContext& c, Recorder& r) {
+      RunOut o; Manifold s = q.ops[0] + q.ops[1]; Manifold r1 = s - q.ops[2]; r1.Status();
+      o.pre = {s, r1}; stepStatus(o, c, r, s + q.ops[3]); return o; };
+    add(p);
+  }
+  {  // the same through a copy: t = s shares the op node, s is forced (its handle now holds the leaf, t still the cached op node)
+    Program p; p.name = "dag_preeval_copy"; p.kind = "dag";
+    p.ops = {cube(vec3(1.0), vec3(0.0)), cube(vec3(1.0), vec3(0.4 + jit(), 0.5, 0.25)), sph(0.6, seg, vec3(0.2, 0.2 + jit(), 0.4)), tet(0.9, vec3(0.1, 0.0, 0.3))};
+    p.run = [](const Program& q, ExecutionContext& c, Recorder& r) {
+      RunOut o; Manifold s = (q.ops[0] - q.ops[1]) + q.ops[2]; Manifold t = s; s.Status();
+      o.pre = {t, s}; stepStatus(o, c, r, (t ^ q.ops[3]) + t.Translate(vec3(0.9, 0.1, 0.0))); return o; };
+    add(p);
+  }
+  {  // pre-evaluated shared node below a batch and below a kept-alive intermediate
+    Program p; p.name = "dag_preeval_batch"; p.kind = "dag";
+    p.ops = {sph(0.8, seg, vec3(0.0)), cube(vec3(1.0), vec3(0.5 + jit(), 0.0, 0.0)), cube(vec3(0.7), vec3(0.0, 0.6, 0.1)), sph(0.5, seg, vec3(-0.5, 0.1, 0.2 + jit()))};
+    p.run = [](const Program& q, ExecutionContext& c, Recorder& r) {
+      RunOut o; Manifold s = q.ops[0] ^ q.ops[1]; Manifold u = s + q.ops[2]; u.Status(); Manifold w = s - q.ops[3];
+      o.pre = {s, u}; o.inter = {w}; stepStatus(o, c, r, Manifold::BatchBoolean({w, s, q.ops[2]}, OpType::Add)); return o; };
     add(p);
   }
   {  // nested mixed ops, some handles alive
@@ -402,7 +429,7 @@ static std::vector<Program> makePrograms(uint64_t seed) {
 }
 
 // ------------------------------------------------------------------ driver
-struct Ref { std::vector<uint64_t> hashes; std::vector<Shape> inter; long N = 0; };
+struct Ref { std::vector<uint64_t> hashes; std::vector<Shape> inter, pre; std::vector<size_t> preTri; long N = 0; };
 
 static RunOut runOnce(const Program& p, ExecutionContext& ctx, Recorder& rec, long target) {
 #if defined(MANIFOLD_VTBB)
@@ -445,6 +472,7 @@ int main(int argc, char** argv) {
       bool anyCancelled = false; for (auto& s : rec.segs) anyCancelled |= s.cancelled;
       // intermediates of the reference, evaluated after the root (no ctx)
       for (auto& m : o.inter) { ref.inter.push_back(Shape{m.Volume(), m.SurfaceArea(), m.Genus()}); }
+      for (auto& m : o.pre) { ref.pre.push_back(Shape{m.Volume(), m.SurfaceArea(), m.Genus()}); ref.preTri.push_back(m.NumTri()); }
       bool ok = !anyCancelled && rec.progressApiOk && p.operandHash() == opHash0;
       bool nonEmpty = false; for (auto& m : o.results) nonEmpty |= !m.IsEmpty() && m.Status() == Manifold::Error::NoError;
       std::string msg = anyCancelled ? "uncancelled-run-reported-Cancelled" : !rec.progressApiOk ? "Progress()-differs-from-done/total" : "operands-changed";
@@ -517,6 +545,12 @@ int main(int argc, char** argv) {
         if (st == Manifold::Error::Cancelled) { if (!m.IsEmpty()) bad("cancelled-subexpression-not-empty"); }
         else if (st != Manifold::Error::NoError) bad("subexpression-unexpected-status");
         else if (!near(m.Volume(), ref.inter[i].vol) || !near(m.SurfaceArea(), ref.inter[i].area) || m.Genus() != ref.inter[i].genus) bad("partial-subexpression-escaped");
+      }
+      // handles evaluated BEFORE the observed step keep their value whatever happens to the step (operands untouched)
+      for (size_t i = 0; i < o.pre.size() && i < ref.pre.size(); i++) {
+        const Manifold& m = o.pre[i];
+        if (m.Status() != Manifold::Error::NoError) bad("previously-evaluated-operand-lost-its-value");
+        else if (m.NumTri() != ref.preTri[i] || !near(m.Volume(), ref.pre[i].vol) || !near(m.SurfaceArea(), ref.pre[i].area) || m.Genus() != ref.pre[i].genus) bad("previously-evaluated-operand-changed");
       }
       // a cancelled context short-circuits every later evaluation through it
       if (ctx.Cancelled()) {
